@@ -4,6 +4,7 @@
 #include "lib.hpp"
 #include <pthread.h>
 #include <atomic>
+#include <algorithm>
 using namespace fw;
 using namespace lib;
 
@@ -31,6 +32,29 @@ static std::vector<uint8_t> tdata(const Config &g, int b) {
     return d;
 }
 
+// erasure set for a decode: 1..tolerance fragments; for flat-XOR hd=4 half of the draws are all-data triples
+// that no single parity isolates (the P xor Q path of the three-data decoder), computed from the golden equations
+static std::vector<int> pick_erasures(const Config &g, int b) {
+    int t = ref::tolerance(g), n = g.n();
+    std::vector<int> E;
+    if (t < 1) return E;
+    uint64_t sd = 0x5151 + (uint64_t)b * 2654435761u;
+    if (g.backend == ref::B_XOR && g.hd == 4 && (b & 1)) {
+        const ref::XorShape *sh = ref::xor_shape(g.k, g.m, g.hd);
+        for (int tries = 0; tries < 200; tries++) {
+            int x = (int)(splitmix64(sd) % g.k), y = (int)(splitmix64(sd) % g.k), z = (int)(splitmix64(sd) % g.k);
+            if (x == y || y == z || x == z) continue;
+            uint64_t T = (1ull << x) | (1ull << y) | (1ull << z);
+            bool isolated = false;
+            for (int j = 0; j < g.m; j++) if (__builtin_popcountll(ref::xor_parity_mask(sh, j) & T) == 1) isolated = true;
+            if (!isolated) return {x, y, z};
+        }
+    }
+    int e = 1 + (int)(splitmix64(sd) % t);
+    std::vector<bool> gone(n, false);
+    while ((int)E.size() < e) { int x = (int)(splitmix64(sd) % n); if (!gone[x]) { gone[x] = true; E.push_back(x); } }
+    return E;
+}
 struct Shared { Config g; int desc = -1; Stripe s; };
 struct LiveRec { int desc; uint64_t t_create, t_destroy; };
 struct TOp { int op, a, b; };
@@ -46,9 +70,12 @@ static bool cycle_check(int desc, const Config &g, int b, std::string &err) {
     auto want = ref::serialize_stripe(g, data.data(), data.size(), liberasurecode_get_version(), false);
     for (int i = 0; i < g.n(); i++) if (s.frags[i] != want[i]) { err = "encode output differs from the sequential reference (fragment " + std::to_string(i) + ")"; return false; }
     if (g.backend == ref::B_NULL) return true;
-    int n = g.n(), lost = b % n;
+    int n = g.n();
+    std::vector<int> E = pick_erasures(g, b);
+    if (E.empty()) return true;
+    int lost = E[0];
     std::vector<const std::vector<uint8_t> *> frs; uint64_t pm = 0;
-    for (int i = 0; i < n; i++) if (i != lost) { frs.push_back(&s.frags[i]); pm |= 1ull << i; }
+    for (int i = 0; i < n; i++) if (std::find(E.begin(), E.end(), i) == E.end()) { frs.push_back(&s.frags[i]); pm |= 1ull << i; }
     bool demand = !(g.backend == ref::B_ISA_V && !ref::isa_first_k_invertible(g, pm));
     { FragSet fs; fs.build(frs, {}); DecodeOut d = decode(desc, fs, s.fraglen, 0);
       if (d.rc == 0) { if (d.out != data) { err = "decode returned wrong data"; return false; } } else if (demand) { err = "decode failed rc=" + std::to_string(d.rc); return false; } }
@@ -88,9 +115,12 @@ static void *worker_main(void *p) {
             if (w.shared->empty()) break;
             Shared &sh = (*w.shared)[o.a % w.shared->size()];
             if (sh.g.backend == ref::B_NULL) break;
-            int n = sh.g.n(), lost = (o.b & 0xff) % n;
+            int n = sh.g.n();
+            std::vector<int> E = pick_erasures(sh.g, o.b & 0xff);
+            if (E.empty()) break;
+            int lost = E[(o.b >> 3) % E.size()];
             std::vector<const std::vector<uint8_t> *> frs; uint64_t pm = 0;
-            for (int i = 0; i < n; i++) if (i != lost) { frs.push_back(&sh.s.frags[i]); pm |= 1ull << i; }
+            for (int i = 0; i < n; i++) if (std::find(E.begin(), E.end(), i) == E.end()) { frs.push_back(&sh.s.frags[i]); pm |= 1ull << i; }
             bool demand = !(sh.g.backend == ref::B_ISA_V && !ref::isa_first_k_invertible(sh.g, pm));
             FragSet fs; fs.build(frs, {(o.b >> 4) & 15});
             if (o.op == T_SHARED_DECODE) { DecodeOut d = decode(sh.desc, fs, sh.s.fraglen, o.b & 1);
@@ -185,6 +215,17 @@ static Case gen_c18() {
         int a = (int)pick(0, 255);
         if (j == 0 && coin(2, 3) && (op == T_OWN_CYCLE || op == T_OWN_HOLD)) a &= ~7;     // RS first: concurrent first-ever RS creates
         ops.push_back(t); ops.push_back(op); ops.push_back(a); ops.push_back((int)pick(0, 1023));
+    }
+    if (coin(1, 4)) {
+        // scenario: every thread decodes / reconstructs through ONE shared flat-XOR hd=4 descriptor with
+        // three-data erasure sets (scratch state shared between decodes would race here)
+        int hd4 = -1;
+        for (int tries = 0; tries < 64 && hd4 < 0; tries++) { int a = ((int)pick(0, 31) * 8) | 2; if (own_shape(a).hd == 4) hd4 = a; }
+        if (hd4 >= 0) {
+            c.setv("shared", std::vector<int>{hd4});
+            ops.clear();
+            for (int t = 0; t < nt; t++) for (int j = 0; j < per + 1; j++) { ops.push_back(t); ops.push_back(coin(3, 4) ? T_SHARED_DECODE : T_SHARED_RECON); ops.push_back(0); ops.push_back((int)pick(0, 1023) | 1); }
+        }
     }
     c.setv("ops", ops);
     return c;
